@@ -314,6 +314,15 @@ def generate(ctx, shard=0, nshards=1):
         out = run_impl(Epoch.get_last_leap_second)
         ctx.predicate('last_leap_second', out == enc((2016, 12, 31.0, 27)), ['table'], out)
         ctx.case('get_last_leap_second', [], out, q='exact', klass='get_last_leap_second')
+        # the same function on a table whose newest entry is a mid-year one (the IERS inserts leap seconds at the end
+        # of June too; the present table happens to end with a December one): the table is extended in this
+        # process only and restored at once
+        try:
+            LEAP_TABLE[2030.5] = 28
+            out_mid = run_impl(Epoch.get_last_leap_second)
+        finally:
+            LEAP_TABLE.pop(2030.5, None)
+        ctx.predicate('last_leap_second', out_mid == enc((2030, 6, 30.0, 28)), ['table+2030.5'], out_mid, 'last_leap_second/mid_year')
         # leap_seconds outside the documented month range / far years: tie only
         for y in (1971, 1972, 1973, 2016, 2017, 2018, 1950, 0, -4712, 9999, 123456):
             for m in (-13, -1, 0, 1, 6, 7, 12, 13, 18, 19, 24, 25, 600):
